@@ -53,7 +53,8 @@ STUBBED = ["socket/select/time/pinger/random (simkit)", "links and hosts "
            "(harness)", "DeferredSender (no back-pressure)"]
 EXPECT_PROBES = ["has_cycle", "one_way_link", "parallel_links", "link_down",
                  "link_up", "control_reset", "silent_switch", "converged",
-                 "flood_sim", "big_dpid", "big_port"]
+                 "flood_sim", "big_dpid", "big_port", "port_deleted",
+                 "port_readded"]
 
 # dpids of every hex-digit length (the probe carries the dpid as hex text):
 # 16^k, 16^(k+1)-1 and a value in between, plus a few small ones
@@ -109,12 +110,23 @@ def gen_plan(seed, tier):
         ps.add(pb)
     cfg["ports"][str(d)] = sorted(ps)
   steps = []
+  gone = []
   for _ in range(r.randint(0, 6)):
     k = r.wpick([(5, "link"), (2, "reset"), (1, "silent"), (1, "loss"),
-                 (3, "advance")])
+                 (2, "port"), (3, "advance")])
     if k == "link" and links:
       steps.append({"op": "link", "i": r.randrange(len(links)),
                     "down": r.chance(0.6), "both": r.chance(0.6)})
+    elif k == "port":
+      # an inter-switch port is removed from / given back to its switch
+      # (port_status DELETE / ADD)
+      if gone and r.chance(0.6):
+        sw_, i_ = gone.pop(r.randrange(len(gone)))
+        steps.append({"op": "port", "sw": sw_, "i": i_, "del": False})
+      else:
+        sw_, i_ = r.pick(dpids), r.randrange(8)
+        gone.append((sw_, i_))
+        steps.append({"op": "port", "sw": sw_, "i": i_, "del": True})
     elif k == "reset":
       steps.append({"op": "reset", "sw": r.pick(dpids)})
     elif k == "silent":
@@ -292,12 +304,22 @@ def _drive(sim, plan, known, hit):
 
   for k in up:
     last_up[k] = sim.now
+  wire = dict(up)       # what the link steps did to each direction
+  present = {(d, p): True for d in dpids for p in cfg["ports"][str(d)]}
+
+  def recompute():
+    for e, far in phys.items():
+      new = bool(wire[e] and present[e] and present[far])
+      if new != up[e] or new:
+        last_up[e] = sim.now
+      up[e] = new
+      net.link_up[e] = wire[e]
   settle()
   T_conv = cfg["link_timeout"] / 2.0 + cfg["link_timeout"] + 5 + 2
   sim.advance(T_conv)
   settle()
   _check_converged(sim, net, disc, cfg, phys, up, silent, known, hit,
-                   "initial convergence")
+                   "initial convergence", present)
   last_fault = sim.now
   for idx, st in enumerate(plan["steps"]):
     sim.ch.reseed(mix(plan["seed"], "step", idx))
@@ -313,17 +335,25 @@ def _drive(sim, plan, known, hit):
       if st.get("both") and phys.get((b, pb)) == (a, pa):
         ends.append((b, pb))
       for e in ends:
-        if st["down"]:
-          if up[e]:
-            last_up[e] = sim.now
-          up[e] = False
-          net.link_up[e] = False
-          sim.probes["link_down"] += 1
-        else:
-          up[e] = True
-          last_up[e] = sim.now
-          net.link_up[e] = True
-          sim.probes["link_up"] += 1
+        wire[e] = not st["down"]
+        sim.probes["link_down" if st["down"] else "link_up"] += 1
+      recompute()
+    elif op == "port":
+      d = st["sw"]
+      cands = sorted(p for p in cfg["ports"][str(d)]
+                     if p != cfg["hostports"][str(d)])
+      if cands:
+        pno = cands[st["i"] % len(cands)]
+        sw = net.switches[d].sw
+        if st["del"] and present[(d, pno)]:
+          sw.delete_port(pno)
+          present[(d, pno)] = False
+          sim.probes["port_deleted"] += 1
+        elif not st["del"] and not present[(d, pno)]:
+          sw.add_port(sw.generate_port(pno, name="p%d" % pno))
+          present[(d, pno)] = True
+          sim.probes["port_readded"] += 1
+        recompute()
     elif op == "reset":
       if net.reset_control(st["sw"]):
         sim.probes["control_reset"] += 1
@@ -348,7 +378,7 @@ def _drive(sim, plan, known, hit):
   sim.advance(T_conv + 6.0)      # + reconnect back-off
   settle()
   _check_converged(sim, net, disc, cfg, phys, up, silent, known, hit,
-                   "after the last fault")
+                   "after the last fault", present)
   # alternation add/remove per link over the whole run
   per = {}
   for t, added, key in link_events:
@@ -365,7 +395,8 @@ def _drive(sim, plan, known, hit):
                     % (getattr(sim, "last_error", None),))
 
 
-def _check_converged(sim, net, disc, cfg, phys, up, silent, known, hit, ctx):
+def _check_converged(sim, net, disc, cfg, phys, up, silent, known, hit, ctx,
+                     present):
   dpids = cfg["dpids"]
   connected = set(net.nexus.connections.dpids)
   if connected != set(dpids):
@@ -414,7 +445,7 @@ def _check_converged(sim, net, disc, cfg, phys, up, silent, known, hit, ctx):
     on_link.add((b, pb))
   for d in dpids:
     for p in cfg["ports"][str(d)]:
-      if (d, p) not in on_link and not flood_on(d, p):
+      if present[(d, p)] and (d, p) not in on_link and not flood_on(d, p):
         raise Violation("tree/edge-port-disabled", "%s: port %d of switch "
                         "%#x is on no discovered link but has flooding "
                         "disabled" % (ctx, p, d),)
